@@ -336,15 +336,18 @@ fn main() {
     // on a thread with a modest stack: deep recursion of the code under test is part of what is observed
     let n_inputs = inputs.len();
     let mut samples: Vec<J> = Vec::new();
+    let mut progress_file = progress.as_ref().map(|p| std::fs::File::create(p).unwrap());
     let handle = std::thread::Builder::new()
         .stack_size(8 * 1024 * 1024)
         .spawn(move || {
             for (i, (b, src)) in inputs.iter().enumerate() {
-                if let Some(p) = &progress {
+                if let Some(f) = &mut progress_file {
                     // if the process dies (abort on allocation failure, stack overflow), python reports this input
-                    if i % 1 == 0 {
-                        let _ = std::fs::write(p, format!("{}", json!({"i": i + 1, "in": jbytes(b), "src": src})));
-                    }
+                    use std::io::{Seek, SeekFrom};
+                    let line = format!("{}", json!({"i": i + 1, "in": jbytes(b), "src": src}));
+                    let _ = f.seek(SeekFrom::Start(0));
+                    let _ = f.write_all(line.as_bytes());
+                    let _ = f.set_len(line.len() as u64);
                 }
                 let mut r = observe(i + 1, b, src);
                 if corrupt == Some(i + 1) {
